@@ -149,6 +149,21 @@ Theorem c06_acn_decode_address_proposedfix : forall buf size typ n z,
 Proof. intros buf size typ n z Hb Hn. apply (bounded_no_hazard n); auto. apply decode_address_bounded. Qed.
 Print Assumptions c06_acn_decode_address_proposedfix.
 
+(* IncomingUDPTransport::Receive accepts exactly one preamble: a datagram whose first 16 bytes differ from
+   PreamblePacker::ACN_HEADER in ANY byte - the preamble-size / post-amble-size fields included - is discarded
+   without a callback or a state change, whatever follows *)
+Theorem c06_acn_preamble_strict : forall buf ign n hs,
+  n <= len buf -> list_eqb (slice buf 0 ACN_HEADER_SIZE) ACN_PREAMBLE = false ->
+  run buf (acn_handle ign n hs) = Done (hs, []).
+Proof.
+  intros buf ign n hs Hn Hp. unfold acn_handle. cbv zeta.
+  destruct (n <? ACN_HEADER_SIZE) eqn:E; [reflexivity|]. apply N.ltb_ge in E.
+  cbn [run]. change (ACN_HEADER_SIZE =? 0) with false. cbv iota.
+  destruct (0 + ACN_HEADER_SIZE <=? len buf) eqn:E2; [|apply N.leb_gt in E2; lia].
+  rewrite Hp. reflexivity.
+Qed.
+Print Assumptions c06_acn_preamble_strict.
+
 (* independent of the capacity and of what the socket layer reports: for a receive buffer of ANY size and ANY reported
    length n < 2^31 the handler returns (its loops end within their fuel: PDU block walks: fuel = block length + 1, each PDU advances the offset by at least its 2-byte length field; discovery page walk: 2 bytes per turn) and never divides by zero; and if
    the buffer does hold n bytes it reads nothing at or beyond n *)
